@@ -222,11 +222,15 @@ PROPS["C14"] = {
 PROPS["C03"] = {
     # obligations are merged from the per-area modules as they are integrated (grid placement, flex freeze loop,
     # fr / distribution loops, index-checked accessors)
-    "modules": ["TaffyVerif.Props.C14", "TaffyVerif.Props.C03Grid", "TaffyVerif.Props.C03Flex", "TaffyVerif.Props.C03Tracks"],
+    "modules": ["TaffyVerif.Props.C14", "TaffyVerif.Props.C03Grid", "TaffyVerif.Props.C03GridTotal", "TaffyVerif.Props.C03Flex",
+                "TaffyVerif.Props.C03Tracks"],
     "theorems": ["C14.index_error_unchanged", "C14.index_error_iff", "C14.no_panic",
                  "C03Grid.search_secondary_terminates", "C03Grid.search_fixed_primary_terminates",
                  "C03Grid.search_both_terminates", "C03Grid.fuel_suffices",
                  "C03Grid.estimate_covers_definite", "C03Grid.mark_area_never_panics", "C03Grid.matrix_wellformed_invariant",
+                 "C03Grid.placement_total", "C03Grid.placement_total_counts", "C03Grid.placement_never_fails",
+                 "C03Grid.placement_total_correct", "C03Grid.placement_total_example", "C03Grid.mark_area_total",
+                 "C03Grid.area_beyond_grid_is_free", "C03Grid.estimate_covers_spans",
                  "C03Flex.iteration_freezes_one", "C03Flex.iteration_freezes_all_when_zero", "C03Flex.freeze_loop_terminates",
                  "C03Tracks.fr_loop_terminates", "C03Tracks.fr_iterates_decrease", "C03Tracks.fr_restart_progress",
                  "C03Tracks.fr_divisor_positive", "C03Tracks.auto_repeat_zero_size_total", "C03Tracks.auto_repeat_divisor_positive",
@@ -244,11 +248,9 @@ PROPS["C03"] = {
     ],
     "assumptions": ["'moderately sized' = |line| ≤ 6, span ≤ 4, lengths ≤ 400, ≤ 16 nodes in the sampled domain"],
     "undischarged": ["totality of the unmodelled parts of flexbox.rs and grid track sizing (sampled only)",
-                     "grid placement_total (no panic / no overflow under an explicit bound on |line|, span, #children) is stated in "
-                     "Props/C03Grid.lean but not proved as a whole: proved are termination of the three search loops for all inputs, "
-                     "that the size estimate covers every definite placement, and that mark_area_as/expand_to_fit_range cannot panic on "
-                     "a well-formed matrix for areas not starting before the implicit grid; missing is threading these through the "
-                     "phases and the quantitative no-overflow invariant (sampled: C08's harness, overflow checks on, 0 panics)"],
+                     ],
+    # grid placement_total is proved (Props/C03GridTotal.lean): for explicit counts 0..B, |line| <= B, span <= B, <= N children with
+    # (N+5)*(B+2) <= 16000 (e.g. B = N = 100) run returns ok: no panic, no overflow, no outOfFuel
     "level_text": "Proved: index-checked tree accessors/mutators return Err and never panic for every index and leave the state "
                   "unchanged (C14 model); further obligations (grid placement totality, flex freeze-loop and fr-loop termination) are "
                   "added as their models are integrated. Observed, not proved: no panic, hang, blow-up or non-finite output of the "
